@@ -40,10 +40,12 @@ LAYOUT_SENSITIVE_CTORS = {"Regex", "White", "LineStart", "LineEnd", "SkipTo", "S
                           "Empty", "empty"}
 LAYOUT_SENSITIVE_METHODS = {"leaveWhitespace", "leave_whitespace", "setWhitespaceChars",
                             "set_whitespace_chars", "setDefaultWhitespaceChars",
-                            "set_default_whitespace_chars", "parseWithTabs", "parse_with_tabs"}
+                            "set_default_whitespace_chars"}
+# (parseWithTabs is not in this list: it only stops parseString from expanding tabs to column-dependent blanks; a tab is skipped
+#  as white space either way - rule L8 *requires* it where the grammar copies text verbatim)
 COMMENT_EXPRS = {"cppStyleComment", "cpp_style_comment", "cStyleComment", "c_style_comment",
                  "dblSlashComment", "dbl_slash_comment", "pythonStyleComment", "javaStyleComment"}
-NOOP_METHODS = {"setName", "set_name", "setDebug", "set_debug", "streamline", "setBreak"}
+NOOP_METHODS = {"setName", "set_name", "setDebug", "set_debug", "streamline", "setBreak", "parseWithTabs", "parse_with_tabs"}
 
 
 class GNode:
